@@ -44,7 +44,7 @@ type scheduler struct {
 	switches int
 	wg       sync.WaitGroup
 	// visible-op log of the execution (thread, op) for replay files and state keys
-	log    []SchedEvent
+	log     []SchedEvent
 	keepLog bool
 	// optional hook: called at every point with the running thread; used by state-keyed searches
 	OnPoint  func(tid int, op int, obj unsafe.Pointer)
